@@ -20,6 +20,19 @@ def _dotted(e):
     return None
 
 
+IMPORT_ALIASES = {}     # local name -> dotted origin, filled by derive() from the module's imports (import typing as t, from typing import Optional as Opt)
+
+
+def _resolve(d):
+    if d is None:
+        return None
+    head, _, rest = d.partition(".")
+    origin = IMPORT_ALIASES.get(head)
+    if origin and origin != head:
+        return origin + ("." + rest if rest else "")
+    return d
+
+
 def classify(ann, classes):
     """Annotation AST -> hint shape (nested tuples):
     ('any',) ('prim', k) ('bytes',) ('bytearray',) ('bytesio',) ('opt', X) ('u604', X) ('list', X) ('listbare',)
@@ -31,7 +44,7 @@ def classify(ann, classes):
             return ("other", ann.value)
     if isinstance(ann, ast.Constant) and ann.value is None:
         return ("none",)
-    d = _dotted(ann)
+    d = _resolve(_dotted(ann))
     if d is not None:
         short = d.split(".")[-1]
         if d in ("typing.Any", "Any"):
@@ -52,7 +65,7 @@ def classify(ann, classes):
             return ("cls", short)
         return ("other", d)
     if isinstance(ann, ast.Subscript):
-        base = _dotted(ann.value)
+        base = _resolve(_dotted(ann.value))
         args = list(ann.slice.elts) if isinstance(ann.slice, ast.Tuple) else [ann.slice]
         if base in ("typing.List", "List", "list") and len(args) == 1:
             return ("list", classify(args[0], classes))
@@ -91,6 +104,14 @@ def derive(repo=None):
     """{'classes': {name: {'fields': [(name, shape, has_default)], 'bases': [...], 'post_init': bool, 'dict_subclass': bool}},
         'all_classes': [...], 'imports': {...}} from the AST."""
     m = loader.module(DT_PY, repo)
+    IMPORT_ALIASES.clear()
+    for node in m.tree.body:
+        if isinstance(node, ast.Import):
+            for a in node.names:
+                IMPORT_ALIASES[a.asname or a.name.split(".")[0]] = a.name if a.asname else a.name.split(".")[0]
+        elif isinstance(node, ast.ImportFrom) and node.module in ("typing", "io", "dataclasses"):
+            for a in node.names:
+                IMPORT_ALIASES[a.asname or a.name] = f"{node.module}.{a.name}"
     top = {n.name: n for n in m.tree.body if isinstance(n, ast.ClassDef)}
     out = {}
 
